@@ -1,7 +1,7 @@
 (** Extraction of the executable models and checkers to OCaml.
     Only ExtrOcamlBasic and ExtrOcamlString are used; numbers stay Coq datatypes. *)
 From Coq Require Import Extraction ExtrOcamlBasic ExtrOcamlString.
-From Parol Require Import Grammar.Cfg Grammar.Member Runtime.Levenshtein Runtime.LevFaithful Runtime.DfaEval Transform.LrAugment Analysis.WellFormed Analysis.FirstFollow Analysis.FFCheck Runtime.LRParser Tables.LRValidate Scanner.Regex Scanner.RegexEquiv Scanner.LongestMatch Scanner.CommentSpec Scanner.CommentCheck Transform.LeftFactor Analysis.KTupleModel Analysis.KTuple Analysis.LaTrie Analysis.LaMinimize Grammar.Ebnf Transform.Names Transform.Canon Scanner.NoGap Ls.PosOffset Ls.Diagnostics Ls.Edits Runtime.LLParser Tables.TermIndex Gen2.Idents Runtime.TokenBuffer Runtime.TokenStream Runtime.LLTerm Runtime.LROptions Tables.LRTerm Gen2.AstModel.
+From Parol Require Import Grammar.Cfg Grammar.Member Grammar.Ambig Runtime.Levenshtein Runtime.LevFaithful Runtime.DfaEval Transform.LrAugment Analysis.WellFormed Analysis.FirstFollow Analysis.FFCheck Runtime.LRParser Tables.LRValidate Scanner.Regex Scanner.RegexEquiv Scanner.LongestMatch Scanner.CommentSpec Scanner.CommentCheck Transform.LeftFactor Analysis.KTupleModel Analysis.KTuple Analysis.LaTrie Analysis.LaMinimize Grammar.Ebnf Transform.Names Transform.Canon Scanner.NoGap Ls.PosOffset Ls.Diagnostics Ls.Edits Runtime.LLParser Tables.TermIndex Gen2.Idents Runtime.TokenBuffer Runtime.TokenStream Runtime.LLTerm Runtime.LROptions Tables.LRTerm Gen2.AstModel.
 Extraction Language OCaml.
 Set Extraction Optimize.
 Separate Extraction Levenshtein.lev_check Levenshtein.dist LevFaithful.lev
@@ -33,5 +33,5 @@ Separate Extraction Levenshtein.lev_check Levenshtein.dist LevFaithful.lev
   TokenBuffer.all_tokens TokenBuffer.tokens_check TokenBuffer.token_triple TokenBuffer.matches_ok TokenStream.parser_input
   LLTerm.rank_ok LLTerm.find_cert LLTerm.left_recursion_free
   LROptions.lr_run_opts LROptions.lr_run_peak LROptions.lr_default_options
-  LRTerm.acyclic_ok LRTerm.stack_rank_ok LRTerm.find_acyclic_cert LRTerm.find_stack_ranks LRTerm.find_eps_set LRTerm.eps_closed
+  LRTerm.acyclic_ok LRTerm.stack_rank_ok LRTerm.find_acyclic_cert LRTerm.find_stack_ranks LRTerm.find_eps_set LRTerm.eps_closed Ambig.ambig_check
   AstModel.build_ast AstModel.attrs_ok AstModel.user_ok AstModel.tokens_of AstModel.call_names.
